@@ -99,12 +99,30 @@ def notaryTab : Nat := 117
 def notaryAcc : Nat := 12
 /-- first Notary deposit must be at least 2 * NotaryAssisted attribute fee. -/
 def minDeposit : Nat := 20000000
+/-- NEO candidate: key 0 present = the (one) candidate key is registered. The candidate RECORD of the
+    node exists iff it is registered or has votes (native_neo.go dropCandidateIfZero). -/
+def regTab : Nat := 118
+/-- Oracle: key 0 = next request id; key 100+id = 10*url + requesting contract of the pending request. -/
+def oracleTab : Nat := 119
+def oracleAcc : Nat := 13
+/-- Oracle.request: the GAS attached for the response (oracle.go MinimumResponseGas). -/
+def responseGas : Nat := 10000000
+/-- Notary deposits: key = owner, value = `till` (block height until which the deposit is locked). -/
+def tillTab : Nat := 120
+/-- key 0 = index of the persisting block (an input of the block, like the GAS rewards). -/
+def heightTab : Nat := 121
+/-- notary.go defaultDepositDeltaTill. -/
+def depositDelta : Nat := 5760
 
 /-- a deployed, not destroyed contract (ic.GetContract succeeds). -/
 def alive (view : Key → Option Nat) (c : Nat) : Bool :=
   c < 4 && (view (mgmtTab, 100 + c)).isNone
 /-- Policy.setFeePerByte upper bound (native_policy.go maxFeePerByte). -/
 def maxFeePerByte : Nat := 100000000
+
+/-- interop/context.go MaxNotificationCount (HFEchidna): AddNotification fails (and the caller panics) when
+    the notification list of the execution already has this length. -/
+def maxNotifications : Nat := 512
 
 inductive NOp where
   /-- `token.transfer(self, to, amt, data)`; `isC`: `to` is a deployed contract (payment callback). -/
@@ -116,8 +134,11 @@ inductive NOp where
   | unblock (a : Nat)
   /-- `ContractManagement.deploy(nef_d, manifest_d)` of the auxiliary contract `d`. -/
   | deploy (d : Nat)
-  /-- `ContractManagement.update(nil, manifest')` / `destroy()` of the calling contract. -/
-  | update
+  /-- `ContractManagement.update(nef, manifest')` of the calling contract: `nefV = 0` no new NEF,
+      otherwise the NEF variant `nefV`. -/
+  | update (nefV : Nat)
+  /-- the last phase of `ContractManagement.destroy()` of the calling contract (the first ones are
+      `revoke 99` and `mint 99`: Policy.BlockAccountInternalDeferrable revokes the contract's votes). -/
   | destroy
   /-- `RoleManagement.designateAsRole(role, nodes_v)`. -/
   | designate (role v : Nat)
@@ -134,6 +155,16 @@ inductive NOp where
   /-- the first part of `Policy.blockAccount(a)` (HFFaun): `NEO.RevokeVotes(a)` unless `a` is blocked
       already; its deferred GAS minting is `mint a`, the block itself is `block a`. -/
   | revoke (a tag : Nat)
+  /-- `NEO.registerCandidate(key)` / `NEO.unregisterCandidate(key)` for the one candidate key; `w`: the
+      transaction carries the key owner's witness. -/
+  | regCand
+  | unregCand (w : Bool)
+  /-- `Oracle.request(url_u, null, "cb", null, responseGas)` / `Oracle.finish()`. -/
+  | oracleReq (u : Nat)
+  | oracleFinish
+  /-- `Notary.lockDepositUntil(self, till)` / `Notary.withdraw(self, to)`. -/
+  | lock (till : Nat)
+  | withdraw (to : Nat)
   deriving Repr, DecidableEq
 
 inductive Tree where
@@ -203,7 +234,9 @@ def natStep (o : NOp) (self : Nat) (f : Flags) (view : Key → Option Nat) : Opt
       match view (notaryTab, self) with
       | none =>
         if amt < minDeposit then some ⟨ws, [(tab, amt)], some to, true⟩
-        else some ⟨.set (notaryTab, self) amt :: ws, [(tab, amt)], some to, false⟩
+        -- the depositor is not the transaction's sender: till = BlockHeight + defaultDepositDeltaTill
+        else some ⟨.set (tillTab, self) ((view (heightTab, 0)).getD 0 - 1 + depositDelta) :: .set (notaryTab, self) amt :: ws,
+          [(tab, amt)], some to, false⟩
       | some d => some ⟨.set (notaryTab, self) (d + amt) :: ws, [(tab, amt)], some to, false⟩
     else
     some ⟨ws, [(tab, amt)], if isC && alive view to then some to else none, false⟩
@@ -232,19 +265,20 @@ def natStep (o : NOp) (self : Nat) (f : Flags) (view : Key → Option Nat) : Opt
     | none =>
       let id := (view (mgmtTab, 99)).getD 0
       some ⟨[.set (mgmtTab, 99) (id + 1), .set (mgmtTab, d) id], [(mgmtTab, d)], none, false⟩
-  | .update =>
+  | .update nefV =>
     -- management.go Update: RequiredFlags All; the whitelist entries of the contract are removed
     if !(f.r && f.w && f.c && f.n) then none else
     if !alive view self then none else
     let cnt := (view (mgmtTab, 200 + self)).getD 0
+    let nefW : List Write := if nefV = 0 then [] else [.set (mgmtTab, 300 + self) nefV]
     match view (wlTab, self) with
-    | some _ => some ⟨[.set (mgmtTab, 200 + self) (cnt + 1), .del (wlTab, self)], [(wlTab, self), (mgmtTab, 200 + self)], none, false⟩
-    | none => some ⟨[.set (mgmtTab, 200 + self) (cnt + 1)], [(mgmtTab, 200 + self)], none, false⟩
+    | some _ => some ⟨nefW ++ [.set (mgmtTab, 200 + self) (cnt + 1), .del (wlTab, self)], [(wlTab, self), (mgmtTab, 200 + self)], none, false⟩
+    | none => some ⟨nefW ++ [.set (mgmtTab, 200 + self) (cnt + 1)], [(mgmtTab, 200 + self)], none, false⟩
   | .destroy =>
     -- management.go destroyDeferrableV1: block the hash, clean the whitelist, erase contract and storage
     if !(f.r && f.w && f.n) then none else
     if !alive view self then none else
-    let erase : List Write := [.set (mgmtTab, 100 + self) 1, .del (self, 3), .del (self, 2), .del (self, 1), .del (self, 0)]
+    let erase : List Write := [.set (mgmtTab, 100 + self) 1, .del (self, 4), .del (self, 3), .del (self, 2), .del (self, 1), .del (self, 0)]
     match view (wlTab, self) with
     | some _ => some ⟨erase ++ [.del (wlTab, self), .set (blockTab, self) 1], [(wlTab, self), (mgmtTab, 100 + self)], none, false⟩
     | none => some ⟨erase ++ [.set (blockTab, self) 1], [(mgmtTab, 100 + self)], none, false⟩
@@ -296,6 +330,8 @@ def natStep (o : NOp) (self : Nat) (f : Flags) (view : Key → Option Nat) : Opt
     match view (neoTab, self) with
     | none => some ⟨[], [], none, false⟩
     | some bal =>
+      -- "validator must be registered" (checked before anything is touched): `false`
+      if on && (view (regTab, 0)).isNone then some ⟨[], [], none, false⟩ else
       let old := (view (voteTab, self)).isSome
       let voters := (view (votersTab, 0)).getD 0
       let cand := (view (candTab, 0)).getD 0
@@ -303,8 +339,11 @@ def natStep (o : NOp) (self : Nat) (f : Flags) (view : Key → Option Nat) : Opt
       let wCand : List Write := if old = on then [] else [.set (candTab, 0) (if on then cand + bal else cand - bal)]
       let wVote : List Write := if on then [.set (voteTab, self) 1] else [.del (voteTab, self)]
       some ⟨wVote ++ wCand ++ neoTouch view self tag ++ wVoters, [(voteTab, self)], none, false⟩
-  | .revoke a tag =>
+  | .revoke a0 tag =>
     if !(f.r && f.w && f.n) then none else
+    -- `a0 = 99`: the calling contract (ContractManagement.destroy: GetContract(calling hash) panics otherwise)
+    if a0 = 99 && !alive view self then none else
+    let a := if a0 = 99 then self else a0
     match view (blockTab, a) with
     | some _ => some ⟨[], [], none, false⟩
     | none =>
@@ -324,6 +363,57 @@ def natStep (o : NOp) (self : Nat) (f : Flags) (view : Key → Option Nat) : Opt
     | some r =>
       some ⟨[.set (gasTab, a) ((view (gasTab, a)).getD 0 + r), .del (pendTab, 100 * tag + a)], [(gasTab, r)],
         if alive view a then some a else none, false⟩
+  | .regCand =>
+    -- native_neo.go registerCandidate (HFEchidna: no witness check, RegisterCandidateInternal directly):
+    -- RequiredFlags States|AllowNotify; the event only when the registration state changes
+    if !(f.r && f.w && f.n) then none else
+    match view (regTab, 0) with
+    | some _ => some ⟨[], [], none, false⟩
+    | none => some ⟨[.set (regTab, 0) 1], [(regTab, 1)], none, false⟩
+  | .unregCand w =>
+    -- CheckKeyedWitness fails => `false`; no record => nothing; a record without votes is dropped
+    if !(f.r && f.w && f.n) then none else
+    if !w then some ⟨[], [], none, false⟩ else
+    match view (regTab, 0) with
+    | some _ => some ⟨[.del (regTab, 0)], [(regTab, 0)], none, false⟩
+    | none => some ⟨[], [], none, false⟩
+  | .oracleReq u =>
+    -- oracle.go RequestInternal: RequiredFlags States|AllowNotify; GAS for the response is minted to the
+    -- Oracle contract (no payment callback), the request id counter is incremented, the caller must be a
+    -- deployed contract (else panic), the request is stored
+    if !(f.r && f.w && f.n) then none else
+    -- the mint (and its Transfer event) precedes the check of the caller: FAULT with that event in the raw list
+    if !alive view self then some ⟨[], [(gasTab, responseGas)], some self, true⟩ else
+    let id := (view (oracleTab, 0)).getD 0
+    some ⟨[.set (oracleTab, 100 + id) (10 * u + self), .set (oracleTab, 0) (id + 1),
+        .set (gasTab, oracleAcc) ((view (gasTab, oracleAcc)).getD 0 + responseGas)],
+      [(gasTab, responseGas), (oracleTab, id)], none, false⟩
+  | .oracleFinish =>
+    -- oracle.go finishDeferrable: "called from non-entry script" / no OracleResponse attribute: panics
+    none
+  | .lock till =>
+    -- notary.go lockDepositUntil: RequiredFlags States; every failed check is `false`
+    if !(f.r && f.w) then none else
+    if self = entryId then some ⟨[], [], none, false⟩ else
+    if till < (view (heightTab, 0)).getD 0 + 1 then some ⟨[], [], none, false⟩ else
+    match view (notaryTab, self) with
+    | none => some ⟨[], [], none, false⟩
+    | some _ =>
+      if till < (view (tillTab, self)).getD 0 then some ⟨[], [], none, false⟩ else
+      some ⟨[.set (tillTab, self) till], [], none, false⟩
+  | .withdraw to =>
+    -- notary.go withdrawDeferrable: RequiredFlags All; allowed once block `till` is persisted; the deposit
+    -- is removed, then GAS.transfer(Notary, to, amount, null) is called FROM the native (a context of its
+    -- own, like a payment callback: an exception pending at its unload is an error)
+    if !(f.r && f.w && f.c && f.n) then none else
+    if self = entryId then some ⟨[], [], none, false⟩ else
+    match view (notaryTab, self) with
+    | none => some ⟨[], [], none, false⟩
+    | some amt =>
+      if (view (heightTab, 0)).getD 0 - 1 < (view (tillTab, self)).getD 0 then some ⟨[], [], none, false⟩ else
+      let gasW : List Write := if to = notaryAcc then [] else
+        [.set (gasTab, to) ((view (gasTab, to)).getD 0 + amt), .set (gasTab, notaryAcc) ((view (gasTab, notaryAcc)).getD 0 - amt)]
+      some ⟨gasW ++ [.del (tillTab, self), .del (notaryTab, self)], [(gasTab, amt)], some to, to = notaryAcc⟩
 
 /-! ## Specification semantics -/
 
@@ -350,6 +440,8 @@ def spFinExc (rf : St → Res St) (s : St) : Res St :=
 /-- one phase of a native method: its writes and events, then the payment callback it starts. -/
 def spPhase (out : NatOut) (rcb : Nat → St → Res St) (s : St) : Res St :=
   let s1 : St := { s with σ := out.ws ++ s.σ, ev := s.ev ++ out.evs }
+  -- every event of a native goes through AddNotification: the one that finds the list full panics
+  if maxNotifications < s1.ev.length then .fault { s1 with ev := s1.ev.take maxNotifications } else
   match out.cb with
   | none => .norm s1
   | some to =>
@@ -370,7 +462,9 @@ def sp : Tree → (c : Nat) → (f : Flags) → St → Res St
   | .del k, c, f, s =>
     if f.r && f.w && alive s.σ.get c then .norm { s with σ := .del (c, k) :: s.σ } else .fault s
   | .notify e, c, f, s =>
-    if f.n && c != entryId then .norm { s with ev := s.ev ++ [(c, e)] } else .fault s
+    if f.n && c != entryId then
+      if s.ev.length < maxNotifications then .norm { s with ev := s.ev ++ [(c, e)] } else .fault s
+    else .fault s
   | .ifp k body, c, f, s =>
     if f.r && alive s.σ.get c then
       match s.σ.get (c, k) with
@@ -449,6 +543,7 @@ def spKFinExc (rf : KSt → Res KSt) (s : KSt) : Res KSt :=
     exception is pending faults the transaction (`callFromNative && !commit`). -/
 def spKPhase (out : NatOut) (rcb : Nat → KSt → Res KSt) (s : KSt) : Res KSt :=
   let s1 : KSt := { s with σ := out.ws ++ s.σ, ev := s.ev ++ out.evs }
+  if maxNotifications < s1.ev.length then .fault { s1 with ev := s1.ev.take maxNotifications } else
   match out.cb with
   | none => .norm s1
   | some to =>
@@ -469,7 +564,9 @@ def spK : Tree → (c : Nat) → (f : Flags) → (inTry : Bool) → KSt → Res 
   | .del k, c, f, _, s =>
     if f.r && f.w && alive s.σ.get c then .norm { s with σ := .del (c, k) :: s.σ } else .fault s
   | .notify e, c, f, _, s =>
-    if f.n && c != entryId then .norm { s with ev := s.ev ++ [(c, e)] } else .fault s
+    if f.n && c != entryId then
+      if s.ev.length < maxNotifications then .norm { s with ev := s.ev ++ [(c, e)] } else .fault s
+    else .fault s
   | .ifp k body, c, f, t, s =>
     if f.r && alive s.σ.get c then
       match s.σ.get (c, k) with
@@ -580,6 +677,7 @@ def imFinExc (h : Bool) (rf : ISt → Res ISt) (s : ISt) : Res ISt :=
     call.go:180) when an exception is pending. -/
 def imPhase (out : NatOut) (rcb : Nat → ISt → Res ISt) (s0 : ISt) : Res ISt :=
   let s1 : ISt := { s0 with top := out.ws ++ s0.top, ev := s0.ev ++ out.evs }
+  if maxNotifications < s1.ev.length then .fault { s1 with ev := s1.ev.take maxNotifications } else
   match out.cb with
   | none => .norm s1
   | some to =>
@@ -600,7 +698,9 @@ def im : Tree → Ctx → ISt → Res ISt
   | .del k, x, s =>
     if x.f.r && x.f.w && alive s.view.get x.c then .norm { s with top := .del (x.c, k) :: s.top } else .fault s
   | .notify e, x, s =>
-    if x.f.n && x.c != entryId then .norm { s with ev := s.ev ++ [(x.c, e)] } else .fault s
+    if x.f.n && x.c != entryId then
+      if s.ev.length < maxNotifications then .norm { s with ev := s.ev ++ [(x.c, e)] } else .fault s
+    else .fault s
   | .ifp k body, x, s =>
     if x.f.r && alive s.view.get x.c then
       match s.view.get (x.c, k) with
